@@ -340,7 +340,7 @@ func c08Rewrite(c *Ctx) {
 		}
 		tfeature := feature
 		method := pick(r, []string{"GET", "GET", "POST", "PUT", "DELETE"})
-		hostHdr := pick(r, []string{"front.test", "front.test:8443", "front.test:80", "10.1.2.3:9000"})
+		hostHdr := pick(r, []string{"front.test", "front.test:8443", "front.test:80", "10.1.2.3:9000", "10.1.2.3", "[::1]", "[2001:db8::8443]", "[2001:db8::1]:8080"})
 		absolute := r.IntN(12) == 0
 		// header set
 		type hv struct{ k, v string }
